@@ -75,6 +75,7 @@ type Exec struct {
 	analyzers    map[*Value]*analysisModel
 	lastAnalyzer *Value
 	lastSwagger  *Value
+	syncMaps     map[*Value]*Map
 	swAnalyzer   map[*Value]*Value
 	poolItems    map[*Value][]Value
 	inPool       map[*Value]string
